@@ -21,18 +21,61 @@ import (
 type Facts map[string]string
 
 // Tokens maps model tokens (ids, values) to the real strings used in the database and back.
+// An id of the teams store may be the same string as an id of the people store (different stores, same id): team tokens
+// (t1, t2, ...) are mapped back in a namespace of their own (ModelT), everything else through Model.
 type Tokens struct {
-	ToReal  map[string]string
-	toModel map[string]string
+	ToReal   map[string]string
+	toModel  map[string]string
+	toModelT map[string]string
 }
 
+func isTeamToken(k string) bool { return len(k) >= 2 && k[0] == 't' && k[1] >= '0' && k[1] <= '9' }
+
 func NewTokens(toReal map[string]string) *Tokens {
-	t := &Tokens{ToReal: map[string]string{}, toModel: map[string]string{}}
+	t := &Tokens{ToReal: map[string]string{}, toModel: map[string]string{}, toModelT: map[string]string{}}
 	for k, v := range toReal {
 		t.ToReal[k] = v
-		t.toModel[v] = k
+		if isTeamToken(k) {
+			t.toModelT[v] = k
+		} else {
+			t.toModel[v] = k
+		}
+	}
+	for v, k := range t.toModelT { // a team token is also the general answer when nothing else claims the string
+		if _, taken := t.toModel[v]; !taken {
+			t.toModel[v] = k
+		}
 	}
 	return t
+}
+
+// Shared says whether a real string is the id of a team and of something else at once
+func (t *Tokens) Shared(real string) bool {
+	if t == nil {
+		return false
+	}
+	_, a := t.toModelT[real]
+	k, b := t.toModel[real]
+	return a && b && !isTeamToken(k)
+}
+
+// ModelT maps a real string that stands where a team id stands
+func (t *Tokens) ModelT(real string) string {
+	if t != nil {
+		if m, ok := t.toModelT[real]; ok {
+			return m
+		}
+	}
+	return t.Model(real)
+}
+
+func (t *Tokens) listT(xs []string) string {
+	out := make([]string, 0, len(xs))
+	for _, x := range xs {
+		out = append(out, t.ModelT(x))
+	}
+	sort.Strings(out)
+	return strings.Join(out, ",")
 }
 
 func (t *Tokens) Real(tok string) string {
@@ -85,8 +128,10 @@ func StoreFacts(root *Node, t *Tokens) Facts {
 			f["ent/"+id+"/roles"] = ""
 			for k, v := range eb.K {
 				switch k {
-				case "name", "team":
+				case "name":
 					f["ent/"+id+"/"+k] = t.Model(DecodeValue(v))
+				case "team":
+					f["ent/"+id+"/"+k] = t.ModelT(DecodeValue(v))
 				case "nickname": // stored key of the symbol nick
 					f["ent/"+id+"/nick"] = t.Model(DecodeValue(v))
 				case "bossId": // stored key of the symbol boss
@@ -112,10 +157,10 @@ func StoreFacts(root *Node, t *Tokens) Facts {
 					}
 				case "teams":
 					if l := TypedKeys(sub); len(l) > 0 {
-						f["lnkPT/"+id] = t.list(l)
+						f["lnkPT/"+id] = t.listT(l)
 					}
 				case "svc":
-					rcFacts(f, "rcPT/"+id+"/", sub, t)
+					rcFacts(f, "rcPT/"+id+"/", sub, t, true)
 				case "ext":
 					f["ext/"+id+"/lead"] = "false"
 					for xk, xv := range sub.K {
@@ -130,11 +175,11 @@ func StoreFacts(root *Node, t *Tokens) Facts {
 						switch xk {
 						case "chiefOf":
 							if l := TypedKeys(xsub); len(l) > 0 {
-								f["backChief/"+id] = t.list(l)
+								f["backChief/"+id] = t.listT(l)
 							}
 						case "squads":
 							if l := TypedKeys(xsub); len(l) > 0 {
-								f["lnkST/"+id] = t.list(l)
+								f["lnkST/"+id] = t.listT(l)
 							}
 						default:
 							f["ext/"+id+"/?bucket:"+q(xk)] = "1"
@@ -148,7 +193,7 @@ func StoreFacts(root *Node, t *Tokens) Facts {
 	}
 	if teams := stores.B["teams"]; teams != nil {
 		for rid, eb := range teams.B {
-			id := t.Model(rid)
+			id := t.ModelT(rid)
 			f["tms/"+id] = "1"
 			for k, v := range eb.K {
 				if k == "chief" {
@@ -174,7 +219,7 @@ func StoreFacts(root *Node, t *Tokens) Facts {
 						f["lnkTP/"+id] = t.list(l)
 					}
 				case "users":
-					rcFacts(f, "rcTP/"+id+"/", sub, t)
+					rcFacts(f, "rcTP/"+id+"/", sub, t, false)
 				default:
 					f["tms/"+id+"/?bucket:"+q(k)] = "1"
 				}
@@ -211,10 +256,14 @@ func StoreFacts(root *Node, t *Tokens) Facts {
 	return f
 }
 
-func rcFacts(f Facts, pfx string, sub *Node, t *Tokens) {
+func rcFacts(f Facts, pfx string, sub *Node, t *Tokens, keysAreTeams bool) {
 	for k, v := range sub.K {
 		if len(k) > 0 && k[0] == tString {
-			f[pfx+t.Model(k[1:])] = DecodeValue(v)
+			m := t.Model(k[1:])
+			if keysAreTeams {
+				m = t.ModelT(k[1:])
+			}
+			f[pfx+m] = DecodeValue(v)
 		} else {
 			f[pfx+"?"+hex.EncodeToString([]byte(k))] = q(v)
 		}
